@@ -182,7 +182,95 @@ fn publish<const V: usize>(from: ObjectReference, to: ObjectReference) {
     }
 }
 
+#[derive(Serialize, Deserialize, Clone, Debug)]
+struct FwdGroupCase {
+    vm: u8,
+    /// tracers per object (2..=3); objects per group is 4 (they share one side-metadata byte)
+    tracers: u8,
+    rounds: u8,
+    spin: u16,
+}
+
+/// Four adjacent 8-byte "objects" whose side forwarding bits share one metadata byte, each traced by
+/// several threads at once: a CAS on one object's bits can fail because a *neighbour's* bits changed.
+fn fwd_group_rounds<const V: usize>(case: &FwdGroupCase, thread: usize) -> Outcome {
+    use mmtk::verif::object_forwarding as of;
+    let page = object_page::<V>(thread);
+    let ro = crate::shadow::vm::variant(V).ref_offset;
+    let tr = (case.tracers as usize).clamp(2, 3);
+    let mut nontrivial = false;
+    for ri in 0..(case.rounds as usize % 24 + 4) {
+        let base = page + 8192 + (ri % 128) * 64;
+        let to_base = page + 49152 + (ri % 128) * 64;
+        let objs: Vec<(ObjectReference, ObjectReference)> = (0..4)
+            .map(|k| {
+                unsafe { *((base + 8 * k) as *mut u64) = 0 };
+                (ObjectReference::from_raw_address(addr(base + 8 * k + ro)).unwrap(), ObjectReference::from_raw_address(addr(to_base + 8 * k + ro)).unwrap())
+            })
+            .collect();
+        for (f, _) in &objs {
+            of::clear_forwarding_bits::<ShadowVM<V>>(*f);
+        }
+        let barrier = Arc::new(Barrier::new(4 * tr));
+        let copies: Vec<Arc<AtomicUsize>> = (0..4).map(|_| Arc::new(AtomicUsize::new(0))).collect();
+        let losers = Arc::new(AtomicUsize::new(0));
+        let spin = case.spin as usize;
+        let results: Vec<(usize, usize)> = std::thread::scope(|s| {
+            let mut hs = vec![];
+            for k in 0..4 {
+                for _ in 0..tr {
+                    let (from, to) = objs[k];
+                    let barrier = barrier.clone();
+                    let copies = copies[k].clone();
+                    let losers = losers.clone();
+                    hs.push(s.spawn(move || {
+                        barrier.wait();
+                        let status = of::attempt_to_forward::<ShadowVM<V>>(from);
+                        if of::state_is_forwarded_or_being_forwarded(status) {
+                            losers.fetch_add(1, Ordering::SeqCst);
+                            let r = of::spin_and_get_forwarded_object::<ShadowVM<V>>(from, status);
+                            (k, r.to_raw_address().as_usize())
+                        } else {
+                            copies.fetch_add(1, Ordering::SeqCst);
+                            for _ in 0..spin {
+                                std::hint::spin_loop();
+                            }
+                            publish::<V>(from, to);
+                            (k, to.to_raw_address().as_usize())
+                        }
+                    }));
+                }
+            }
+            hs.into_iter().map(|h| h.join().unwrap()).collect()
+        });
+        for k in 0..4 {
+            let n = copies[k].load(Ordering::SeqCst);
+            vensure!(n == 1, "round {}: object {} of a group sharing one forwarding-bits byte was copied by {} tracers (variant {})", ri, k, n, V);
+        }
+        for (k, r) in &results {
+            let expect = objs[*k].1.to_raw_address().as_usize();
+            vensure!(*r == expect, "round {}: a tracer of object {} obtained {:#x}, the winner stored {:#x}", ri, k, r, expect);
+        }
+        if losers.load(Ordering::SeqCst) >= 4 {
+            nontrivial = true;
+        }
+    }
+    Outcome::pass_l(nontrivial, vec![])
+}
+
 fn c17(c: &mut Check) {
+    let ng = c.tier.pick(600, 60_000);
+    c.section_procs(
+        "neighbour-groups-side-bits",
+        ng,
+        2,
+        || (0u8..2, 2u8..4, any::<u8>(), prop_oneof![2 => Just(0u16), 2 => 0u16..300, 1 => 0u16..3000]).prop_map(|(vm, tracers, rounds, spin)| FwdGroupCase { vm, tracers, rounds, spin }),
+        |case: &FwdGroupCase, env: &Env| match case.vm {
+            // the two layout variants that keep the forwarding bits on the side
+            0 => fwd_group_rounds::<0>(case, env.thread),
+            _ => fwd_group_rounds::<3>(case, env.thread),
+        },
+    );
     let n = c.tier.pick(600, 60_000);
     c.section_procs(
         "forwarding-races",
